@@ -438,6 +438,19 @@ func (x *Exec) step(st *State, fr *Frame, ins ssa.Instruction) {
 		fr.regs[ins] = v
 		if ins.Comment != "" {
 			fr.vars[ins.Comment] = v
+			// same-named locals (the hidden index of each range loop, shadowed variables) are
+			// also reachable as <name>1, <name>2, ... in order of appearance in the function
+			k := 0
+			for _, b := range fr.fn.Blocks {
+				for _, in := range b.Instrs {
+					if a, ok := in.(*ssa.Alloc); ok && a.Comment == ins.Comment {
+						k++
+						if a == ins {
+							fr.vars[fmt.Sprintf("%s%d", ins.Comment, k)] = v
+						}
+					}
+				}
+			}
 		}
 	case *ssa.Store:
 		x.store(st, x.operand(st, fr, ins.Addr), x.operand(st, fr, ins.Val), ins.Pos())
